@@ -24,6 +24,7 @@ ev["coverage"]["bounded_standins"] = [{
     "how_run": "go test -overlay (test file /verif/bounded/normalize_bounded_test.go injected into package internal of /repo's working tree)",
 }]
 if bcode != 0:
-    ev.setdefault("violations", [])
-    ev["violations"] = (ev.get("violations") or []) + [{"obligation": "bounded:internal.Normalize", "detail": viol[:3], "replay": log_path}]
+    v = ev.get("violations")
+    ev["violations"] = (v if isinstance(v, int) else 0) + 1
+    ev["coverage"]["bounded_standins"][0]["replay"] = log_path
 json.dump(ev, open(ev_path, "w"), indent=1)
